@@ -34,6 +34,16 @@ def main():
     gate = common.grep_gate()
     if gate:
         rep.violation("grep-gate", "forbidden declaration in the Coq development", {"lines": gate}, found_input=False)
+    if a.pid in ("C14", "C17"):
+        # second route: the integer glue of the current source is re-translated and GenAgree.v re-proved
+        import translate
+        tok, tlog = translate.run()
+        rep.obligations += 3
+        if tok:
+            rep.discharged += 3
+        else:
+            rep.violation("genagree", "the shape/axis expressions translated from the current source no longer agree with the model (coq/GenAgree.v)",
+                          {"log": tlog, "theorem_file": "coq/GenAgree.v"}, found_input=False)
     mod = importlib.import_module(f"props.{a.pid}")
     replay = None
     if a.replay:
